@@ -88,6 +88,7 @@ type Engine struct {
 	Trace     bool
 	IfaceSpec map[string]*contract.Func // "pkg.Iface.Method" -> trusted contract
 	pure      int
+	appendForce int
 	constGlobals map[*ssa.Global]Value
 	TypeInvs  map[string]*contract.Pred
 	textCache map[token.Pos]string
@@ -117,6 +118,7 @@ type loopInfo struct {
 	body    map[*ssa.BasicBlock]bool
 	ordinal int
 	lc      *contract.Loop
+	regionOrd int
 }
 
 // NewEngine wraps a loaded program.
